@@ -123,6 +123,8 @@ type c19Case struct {
 	History string `json:"history"`
 	// CtxDone: the request arrived with a context that is already cancelled (drivers whose entry point takes one)
 	CtxDone bool `json:"ctx_done"`
+	// BlockNoRule: the request was rejected by a block error without a triggered rule
+	BlockNoRule bool `json:"block_without_rule"`
 	Notes                 string `json:"notes,omitempty"`
 }
 
@@ -149,7 +151,10 @@ func (r *c19Recorder) mark(kind, resource string) {
 func c19Rules(t *c19testing.T, resource string, admitted bool) {
 	c19TakeBase(resource)
 	rules := []*c19flow.Rule{}
-	if !admitted {
+	if !admitted && c19BlockNoRule {
+		// a throttling rule whose threshold is below the batch count rejects WITHOUT naming a rule in the block error
+		rules = append(rules, &c19flow.Rule{Resource: resource, ControlBehavior: c19flow.Throttling, Threshold: 0.5})
+	} else if !admitted {
 		rules = append(rules, &c19flow.Rule{Resource: resource, Threshold: 0})
 	}
 	if _, err := c19flow.LoadRules(rules); err != nil {
@@ -259,6 +264,7 @@ func c19Finish(t *c19testing.T, c *c19Case) {
 	}
 	c.History = c19History
 	c.CtxDone = c19CtxDone
+	c.BlockNoRule = c19BlockNoRule
 	c.PrivateChain = c19strings.Contains(c.Notes, "private slot chain")
 	c.FallbackAvailable = !c19strings.Contains(c.Notes, "fallback_option_available=false")
 	var buf c19bytes.Buffer
@@ -305,6 +311,8 @@ func c19NodeCounters(resource string) string {
 var (
 	c19UsesCtx = false
 	c19CtxDone = false
+	// c19BlockNoRule: the blocking rule of the case rejects without a triggered rule
+	c19BlockNoRule = false
 )
 
 // c19Ctx gives the context of the current request shape.
@@ -334,6 +342,14 @@ func c19Matrix(f func(admitted, fallback bool, handler string)) {
 		}
 	}
 	c19CtxDone = false
+	// blocked requests once more, rejected by a block error that carries no triggered rule
+	c19BlockNoRule = true
+	for _, fallback := range c19Bools {
+		for _, handler := range c19Handlers[:2] {
+			f(false, fallback, handler)
+		}
+	}
+	c19BlockNoRule = false
 	if c19os.Getenv("C19_PAIRS") == "" {
 		return
 	}
@@ -370,6 +386,9 @@ func c19Name(ep string, admitted, fallback bool, handler string) string {
 	}
 	if c19CtxDone {
 		return c19fmt.Sprintf("c19-%s-adm%t-fb%t-%s-ctxdone", ep, admitted, fallback, handler)
+	}
+	if c19BlockNoRule {
+		return c19fmt.Sprintf("c19-%s-adm%t-fb%t-%s-norule", ep, admitted, fallback, handler)
 	}
 	return c19fmt.Sprintf("c19-%s-adm%t-fb%t-%s", ep, admitted, fallback, handler)
 }
